@@ -18,6 +18,7 @@ import threading
 from collections import deque
 
 import billiard.common as bc
+import billiard.einfo as _be
 import billiard.pool as bp
 from billiard.einfo import ExceptionInfo
 
@@ -217,6 +218,11 @@ class _Unpicklable:
         raise [pickle.PicklingError, ValueError, RuntimeError, TypeError][self.j % 4]('not today')
 
 
+class _BadRepr(_Unpicklable):
+    def __repr__(self):
+        raise RuntimeError('no repr either')
+
+
 _REAL = {}
 
 
@@ -265,6 +271,13 @@ class WorkerAdapter:
                 for lvl in range(j % 4):
                     v = {'k': [1, v]} if lvl % 2 else [v, 'x']
                 return v
+            if kind == 'unpicklable_deep':
+                v = _Unpicklable(j)           # nested beyond the recursion limit: repr() fails as well
+                for _ in range(sys.getrecursionlimit() * 3):
+                    v = [v]
+                return v
+            if kind == 'unpicklable_badrepr':
+                return [_BadRepr(j)]
             raise ValueError(kind)
 
     def _on_exit(self, pid, code):
@@ -410,7 +423,9 @@ class WorkerAdapter:
             if ok:
                 res = 'ok' if val == ('ok', job) else 'wrongvalue'
             else:
-                exc = getattr(val.exception, 'exc', val.exception)
+                exc = val.exception
+                if isinstance(exc, _be.ExceptionWithTraceback):
+                    exc = exc.exc
                 res = {TaskError: 'err', TaskBase: 'baseerr', bp.MaybeEncodingError: 'encerr',
                        SystemExit: 'sysexit'}.get(type(exc), 'other:' + type(exc).__name__)
             return {'t': 'READY', 'j': job, 'res': res}
